@@ -64,6 +64,10 @@ dialect implementations in order to understand how their various components can 
 import importlib
 import threading
 
+from sqlglot import _verif
+
+_VERIF = _verif.ENABLED
+
 DIALECTS = [
     "Athena",
     "BigQuery",
@@ -120,8 +124,14 @@ _import_lock = threading.RLock()
 def __getattr__(name):
     module_name = MODULE_BY_ATTRIBUTE.get(name)
     if module_name:
+        if _VERIF:
+            _verif.emit("attr_wait", module=module_name)
         with _import_lock:
+            if _VERIF:
+                _verif.emit("attr_locked", module=module_name)
             module = importlib.import_module(f"sqlglot.dialects.{module_name}")
+        if _VERIF:
+            _verif.emit("attr_done", module=module_name)
         return getattr(module, name)
 
     raise AttributeError(f"module {__name__} has no attribute {name}")
